@@ -7,17 +7,56 @@ from pyvc.contract import contract
 M = "pyvolutionary.models."
 
 # ---- Task (abstract view used by OptimizationAbstract; bodies verified below) ---------------------------------------------
+DIM = "self.space_dimension"
+contract(M + "Variable.correct", params=dict(value="val"), returns="val", verify=False,
+         assumed_reason="abstract method; refined by ContinuousVariable / DiscreteVariable (VCs above, C13) and PermutationVariable (bounded law campaign)",
+         ensures=[("function-of-the-value", "result is Corr(self, value)"),
+                  ("into-the-domain", "implies(not isnanv(value), Dom(self, result) and not isnanv(result))"),
+                  ("members-unchanged", "implies(Dom(self, value), result is value)")],
+         allocates=False, properties=[])
+
+contract(M + "Task.get_variables", returns="list[Variable]", verify=False,
+         assumed_reason="flattening comprehension (two generators): checked by the bounded law campaign (C14)",
+         ensures=[("fresh", "fresh(result)"), ("one-per-coordinate", "len(result) == " + DIM),
+                  ("flattened-in-order", "all(result[i] is flat(self, i) for i in range(" + DIM + "))")],
+         properties=[])
+
+contract(M + "Task.empty_solution", returns="list[val]", verify=False, assigns=["rng"],
+         assumed_reason="flattening comprehension over randomize(): members by the randomize contracts (C13); bounded law campaign (C14)",
+         ensures=[("fresh", "fresh(result)"), ("in-space", "Space(self, result)"), ("nanfree", "nanfree(self, result)")],
+         properties=[])
+
+contract(M + "Task.objective_function", params=dict(x="list[val]"),
+         returns={"case": "__obj__", "scalar": "float", "list": "list[float]", "default": "scalar"}, verify=False,
+         assumed_reason="the user's objective: deterministic, total on the search space, side-effect free (ValidTask)",
+         requires=[("only-evaluated-inside-the-search-space", "Space(self, x)")],
+         ensures=[("value", "implies(scalar_case(), result == F(self, x))"),
+                  ("count", "implies(not scalar_case(), len(result) == nobj(self))")],
+         allocates=True, properties=[])
+
+SOL_CASES = [{"solution": "list[val]"}, {"solution": "nd[val]"}]
+contract(M + "Task.correct_solution", params=dict(solution="list[val]"), returns="list[val]", cases=SOL_CASES,
+         requires=["len(solution) >= " + DIM, "nanfree(self, solution)", DIM + " >= 0"],
+         ensures=[("fresh", "fresh(result)"), ("one-per-coordinate", "len(result) == " + DIM),
+                  ("coordinate-wise-with-the-owning-variable", "all(result[i] is Corr(flat(self, i), solution[i]) for i in range(" + DIM + "))"),
+                  ("in-space", "Space(self, result)"),
+                  ("members-unchanged", "implies(Space(self, solution), all(result[i] is solution[i] for i in range(" + DIM + ")))"),
+                  ("pure", "heap_unchanged()")],
+         properties=["C01", "C05", "C14"])
+
 contract(M + "Task.initial_solution", params=dict(solution="opt[list[val]]"), returns="list[val]",
          cases=[{"solution": "None"}, {"solution": "list[val]"}, {"solution": "nd[val]"}],
-         requires=["implies(solution is not None, len(solution) >= self.space_dimension and nanfree(self, solution))"],
-         ensures=[("fresh", "fresh(result)"), ("in-space", "Space(self, result)")],
-         assigns=["rng"], properties=["C01", "C05"], verify=False)
+         requires=["implies(solution is not None, len(solution) >= " + DIM + " and nanfree(self, solution))", DIM + " >= 0"],
+         ensures=[("fresh", "fresh(result)"), ("in-space", "Space(self, result)"), ("pure", "heap_unchanged()")],
+         assigns=["rng"], properties=["C01", "C05"])
 
 contract(M + "Task.solve", params=dict(x="list[val]"), returns={"case": "__obj__", "scalar": "float", "list": "list[float]", "default": "scalar"},
-         requires=["Space(self, x)"],
+         cases=[{"__obj__": "scalar"}, {"__obj__": "list"}],
+         requires=["Space(self, x)", DIM + " >= 0"],
          ensures=[("objective-at-x", "implies(scalar_case(), result == F(self, x))"),
-                  ("objective-count", "implies(not scalar_case(), len(result) == nobj(self))")],
-         properties=["C02", "C05"], verify=False)
+                  ("objective-count", "implies(not scalar_case(), len(result) == nobj(self))"),
+                  ("pure", "heap_unchanged()")],
+         properties=["C02", "C05"])
 
 # ---- result packaging (C02, C03, C12, C15): sign restored exactly once, positions and fitness kept, own list ----------------
 KW_CASES = [{"has_task_type": True}, {"has_task_type": False}]
@@ -56,3 +95,56 @@ contract(M + "OptimizationResult.__init__",
                                           " (B0.cost if " + TT + " == TaskType.MIN else -B0.cost))"),
                   ("objects-untouched", "heap_unchanged('self.evolution', 'self.rates', 'self.best_solution', 'self.task_type')")],
          properties=["C02", "C03", "C12", "C15"])
+
+# ---- variable laws (C13) ------------------------------------------------------------------------------------------------------
+VALID_CV = ["finite(self.lower_bound) and finite(self.upper_bound)", "self.lower_bound < self.upper_bound"]
+
+contract(M + "ContinuousVariable.correct", params=dict(value="float"), returns="float", float_mode="fp",
+         cases=[{"value": "float"}, {"value": "int"}],
+         requires=VALID_CV,
+         ensures=[("clip", "isnan(value) or result == clipf(value, self.lower_bound, self.upper_bound)"),
+                  ("into-the-domain", "implies(not isnan(value), self.lower_bound <= result <= self.upper_bound and finite(result))"),
+                  ("members-unchanged", "implies(self.lower_bound <= value <= self.upper_bound, result == value)"),
+                  ("idempotent", "clipf(result, self.lower_bound, self.upper_bound) == result or isnan(value)"),
+                  ("pure", "heap_unchanged()")],
+         properties=["C13", "C01"])
+
+contract(M + "ContinuousVariable.randomize", returns="float", float_mode="fp", requires=VALID_CV, assigns=["rng"],
+         ensures=[("member", "self.lower_bound <= result <= self.upper_bound"), ("pure", "heap_unchanged()")],
+         properties=["C13", "C01"])
+
+contract(M + "ContinuousVariable.validate_bounds", returns="ContinuousVariable", float_mode="fp",
+         raises={"ValueError": "self.upper_bound <= self.lower_bound"},
+         ensures=[("returns-self", "result is self"), ("pure", "heap_unchanged()")],
+         properties=["C13", "C06"])
+
+contract(M + "ContinuousVariable.get_bounds", returns="tuple[float, float]",
+         ensures=[("own-bounds", "result[0] == self.lower_bound and result[1] == self.upper_bound")], properties=["C13", "C14"])
+contract(M + "ContinuousVariable.decode", params=dict(value="float"), returns="float",
+         ensures=[("identity", "result == value")], properties=["C13"])
+
+# DiscreteVariable: real mode (A_real): exact for integers and for |value| < 2**53; the floating-point corner cases
+# (n - eps == n for n >= 3) are covered by the bounded law campaign (pyvc/laws.py)
+NCH = "len(self.choices)"
+contract(M + "DiscreteVariable.get_bounds", returns="tuple[int, int]",
+         ensures=[("index-range", "result[0] == 0 and result[1] == " + NCH + " - 1")], properties=["C13", "C14"])
+
+contract(M + "DiscreteVariable.correct", params=dict(value="float"), returns="int",
+         cases=[{"value": "float"}, {"value": "int"}],
+         requires=[NCH + " >= 1"],
+         ensures=[("into-the-domain", "0 <= result < " + NCH),
+                  ("members-unchanged", "implies(0 <= value <= " + NCH + " - 1 and value == int(value), result == value)"),
+                  ("idempotent", "imin(imax(result, 0), " + NCH + " - 1) == result"),
+                  ("truncated-clip", "result == int(clipf(value, 0, " + NCH + " - 1))"),
+                  ("pure", "heap_unchanged()")],
+         properties=["C13", "C01"])
+
+contract(M + "DiscreteVariable.randomize", returns="int", requires=[NCH + " >= 1"], assigns=["rng"],
+         ensures=[("member", "0 <= result < " + NCH), ("pure", "heap_unchanged()")], properties=["C13", "C01"])
+
+contract(M + "BinaryVariable.validate_n_vars", params=dict(v="int"), returns="int",
+         raises={"ValueError": "v <= 0"}, ensures=[("kept", "result == v")], properties=["C13", "C06"])
+
+contract(M + "EarlyStopping.validate_patience", params=dict(v="opt[int]"), returns="opt[int]",
+         raises={"ValueError": "v is not None and v < 1"}, ensures=[("kept", "(result is None) == (v is None) and implies(v is not None, result == v)")],
+         properties=["C04", "C06"])
